@@ -51,6 +51,32 @@ var Types = []T{
 	{15, "uint8", "u8", "basic", true, false},
 }
 
+// ErrT is a type used where an `error` is expected.
+type ErrT struct {
+	Name       string // wire atom
+	Go         string
+	Zero       string // "no error" / zero value expression
+	Val        string // printf format of a value for error number %s (an int expression); "" = none
+	IsError    bool   // derive.IsError accepts it (at the pinned commit)
+	Implements bool   // it really implements error
+	ValueOK    bool   // a value of it can be passed where `error` is expected
+}
+
+var ErrTypes = map[string]ErrT{
+	"errs":  {"errs", "ErrS", "ErrS(nil)", "ErrS{itoa(%s)}", true, true, true},
+	"errv":  {"errv", "ErrV", "ErrV{}", "ErrV{Code: %s}", true, true, true},
+	"errp":  {"errp", "ErrP", "ErrP{}", "", true, false, false},
+	"perrp": {"perrp", "*ErrP", "(*ErrP)(nil)", "", false, true, true},
+	"miss1": {"miss1", "Miss1", "Miss1{}", "", false, false, false},
+	"miss2": {"miss2", "Miss2", "Miss2{}", "", false, false, false},
+	"miss3": {"miss3", "Miss3", "Miss3{}", "", false, false, false},
+	"miss4": {"miss4", "Miss4", "Miss4(nil)", "", false, true, true},
+	"miss5": {"miss5", "Miss5", "Miss5{}", "", false, false, false},
+}
+
+// ErrNames lists the keys of ErrTypes in a fixed order.
+var ErrNames = []string{"errs", "errv", "errp", "perrp", "miss1", "miss2", "miss3", "miss4", "miss5"}
+
 // OKTypes are the ids for which the printed zero value is well typed today.
 func OKTypes() []int {
 	var out []int
@@ -91,6 +117,37 @@ type St struct {
 }
 type NSl []int
 type NB bool
+
+// Custom error types and near-misses (derive.IsError looks for a NAMED type with a method Error() string).
+type ErrS []string // nil-able, value receiver: implements error
+
+func (e ErrS) Error() string { return "errs" }
+
+type ErrV struct{ Code int } // struct, value receiver: implements error, has no nil
+
+func (e ErrV) Error() string { return "errv" }
+
+type ErrP struct{ Code int } // Error on the POINTER receiver: ErrP does not implement error, *ErrP does
+
+func (e *ErrP) Error() string { return "errp" }
+
+type Miss1 struct{}
+
+func (Miss1) Error(x int) string { return "" }
+
+type Miss2 struct{}
+
+func (Miss2) Error() (string, int) { return "", 0 }
+
+type Miss3 struct{}
+
+func (Miss3) Error() int { return 0 }
+
+type Miss4 interface{ error }
+
+type Miss5 struct{}
+
+func (Miss5) Error() NS { return "" }
 
 // K and KT are an untyped and a typed named constant (bound by deriveApply in some classes).
 const K = 3
@@ -191,6 +248,15 @@ func errOf(s, k int) error {
 func showErr(e error) string {
 	if e == nil {
 		return "nil"
+	}
+	switch x := e.(type) {
+	case ErrV:
+		return "9." + itoa(x.Code)
+	case ErrS:
+		if x == nil {
+			return "typednil" // a nil custom error inside a non-nil interface
+		}
+		return "9." + x[0]
 	}
 	for k, v := range errTab {
 		if v == e {
